@@ -6,6 +6,10 @@ props = [json.loads(l) for l in open(os.path.join(V, 'properties.jsonl'))]
 
 # id -> (level, engine, technique, level text, level note, design_ref)
 CHECKS = {
+ 'C16': ('model_checking', 'E2-seq + E1-sched', 'explicit enumeration of all store states over a 7-key universe with full observer battery and all single-op transitions against a map model (OsFs + rooted MemMapFs); stateless DFS over all interleavings of concurrent exclusive Puts at afero-call granularity',
+         'All 3^7 (quick 3^5) states x every Get/Has/GetAttr/Keys/KeysPrefix (7 prefixes x 2 delimiters x every page size) and every Put/Delete/abandoned-listing transition on both backends; all interleavings of 2..3 exclusive writers (WriterTo and piped sources, retry on/off).',
+         'Key universe avoids file/directory clashes; afero MemMapFs is rooted with BasePathFs like the shipped configuration; real kernel file-system races below afero are out of scope.',
+         'DESIGN.md §3 C16'),
  'C20': ('exploration', 'E2-seq', 'bounded-exhaustive enumeration of names / ids / indices / descriptor field values through the real model package with inverse-function and injectivity oracles',
          'Complete product over every string of length <=3 (quick 2) on an 11-character alphabet (letters, digit, hyphens, connector punctuation, unicode, hostile separators), 3 KSUIDs and 11 boundary indices for every path builder and parser, all <=3-component paths for generated-path detection, and the product of representative field values for the 7 descriptor types.',
          'Names longer than 3 characters are not enumerated; the path code only splits on / and compares fixed file names.',
